@@ -50,8 +50,15 @@ Inductive pc :=
 | GLock                 (* GetMaximum / WeightedSize: Lock (blocking) *)
 | GLoad                 (* ... load drainStatus under the lock: maintenance only if it is "required" *)
 | ILock                 (* InvalidateAll: Lock (blocking) *)
-| IDrain.               (* ... its own loop over the write buffer (no status access): pop one event, or go on to
+| IDrain                (* ... its own loop over the write buffer (no status access): pop one event, or go on to
                            delete the entries and unlock when the buffer is empty *)
+| FTry.                 (* afterWriteTask's retry loop of a writer whose TryPush may be refused (write buffer full).
+                           The argument encodes what will happen: >= 3: this TryPush is refused — the writer calls
+                           scheduleDrainBuffers (spawned here as a helper thread starting at SLoad, which the same
+                           goroutine runs to its end before it tries again: one of the schedules) and tries again
+                           with the argument lowered by 2; 2: the TryPush is accepted — the ordinary writer from
+                           here on; 1 or 0: the retries are exhausted — performCleanUp(task): Lock, maintenance
+                           (the writer's own event is applied directly, never buffered), Unlock, reschedule *)
 
 Global Instance pc_eq_dec : EqDecision pc.
 Proof. solve_decision. Defined.
@@ -61,14 +68,14 @@ Definition pc_to_nat (p : pc) : nat :=
   | WPush => 0 | WLoad => 1 | WCasReq => 2 | WCasP2R => 3 | SLoad => 4 | STry => 5 | SLoad2 => 6
   | SUnlockRet => 7 | SStore => 8 | SSpawn => 9 | SCas => 10 | SUnlock => 11 | DTry => 12 | DCas => 13
   | DLock => 14 | CLock => 15 | MStore => 16 | MDrain => 17 | MLoad => 18 | MCas => 19 | MStoreReq => 20
-  | MUnlock => 21 | RLoad => 22 | Done => 23 | RdLoad => 24 | GLock => 25 | GLoad => 26 | ILock => 27 | IDrain => 28
+  | MUnlock => 21 | RLoad => 22 | Done => 23 | RdLoad => 24 | GLock => 25 | GLoad => 26 | ILock => 27 | IDrain => 28 | FTry => 29
   end.
 Definition nat_to_pc (n : nat) : pc :=
   match n with
   | 0 => WPush | 1 => WLoad | 2 => WCasReq | 3 => WCasP2R | 4 => SLoad | 5 => STry | 6 => SLoad2
   | 7 => SUnlockRet | 8 => SStore | 9 => SSpawn | 10 => SCas | 11 => SUnlock | 12 => DTry | 13 => DCas
   | 14 => DLock | 15 => CLock | 16 => MStore | 17 => MDrain | 18 => MLoad | 19 => MCas | 20 => MStoreReq
-  | 21 => MUnlock | 22 => RLoad | 24 => RdLoad | 25 => GLock | 26 => GLoad | 27 => ILock | 28 => IDrain | _ => Done
+  | 21 => MUnlock | 22 => RLoad | 24 => RdLoad | 25 => GLock | 26 => GLoad | 27 => ILock | 28 => IDrain | 29 => FTry | _ => Done
   end.
 Global Instance pc_countable : Countable pc.
 Proof. apply (inj_countable' pc_to_nat nat_to_pc). intros []; reflexivity. Defined.
@@ -146,6 +153,12 @@ Definition dstep (s : dstate) (i : nat) : option dstate :=
       | GLoad => if Nat.eqb ds 1 then go ds lock wb MStore a else go ds lock wb MUnlock a
       | ILock => if lock then None else go ds true wb IDrain a
       | IDrain => match wb with O => go ds lock wb MUnlock a | S n => go ds lock n IDrain a end
+      | FTry =>
+          match a with
+          | S (S (S n)) => Some (mk ds lock wb (set_nth i (FTry, S n) ths ++ [(SLoad, 1)]))
+          | 2 => go ds lock wb WPush a
+          | _ => go ds lock wb CLock a
+          end
       end
   end.
 
@@ -174,6 +187,12 @@ Definition dinitR (w c rd rf : nat) : dstate :=
 Definition dinitA (w c rd rf g iv : nat) : dstate :=
   mk 0 false 0 (repeat (WPush, 0) w ++ repeat (CLock, 0) c ++ repeat (RdLoad, 0) rd ++ repeat (RdLoad, 1) rf ++
                 repeat (GLock, 0) g ++ repeat (ILock, 0) iv).
+
+(* ... plus writers that may find the write buffer full: one per element of [fs], the element saying how often
+   its TryPush is refused and whether it is then accepted or the writer runs the maintenance itself *)
+Definition dinitF (w c rd rf g iv : nat) (fs : list nat) : dstate :=
+  mk 0 false 0 (repeat (WPush, 0) w ++ repeat (CLock, 0) c ++ repeat (RdLoad, 0) rd ++ repeat (RdLoad, 1) rf ++
+                repeat (GLock, 0) g ++ repeat (ILock, 0) iv ++ map (fun a => (FTry, a)) fs).
 
 (* ---- exhaustive exploration *)
 Fixpoint explore (fuel : nat) (frontier : list dstate) (seen : gset dstate) : option (gset dstate) :=
